@@ -31,7 +31,8 @@ def body(root, t, src, deps, prods):
     try:
         if f == "raise_before":
             raise RuntimeError("injected")
-        dv = [int(Path(d).read_text()) for d in deps]
+        # a dependency is a file (path) or a hashed Python value (the list vt(code)); its "content" is the code
+        dv = [int(d[0]) if isinstance(d, (list, tuple)) else int(Path(d).read_text()) for d in deps]
         omit = f["omit"] if isinstance(f, dict) else []
         kill_after = f.get("kill_after") if isinstance(f, dict) else None
         n = 0
@@ -119,3 +120,19 @@ def gen_begin(root, t):
     if faults.get(str(t)) in ("raise_before", "raise_after"):
         gen_log(root, t, "F")
         raise RuntimeError("injected")
+
+
+def vt_of(code):
+    """Value table of hashed Python inputs: code -> list. Codes 2k and 2k+1 give permutations of
+    each other ([2k, 2k+1] and [2k+1, 2k]); the first element identifies the code."""
+    code = int(code)
+    return [code, code + 1] if code % 2 == 0 else [code, code - 1]
+
+
+def vt(root, nid):
+    """The value of hashed input <nid>: the harness keeps its code in f<nid>.txt (read when the task
+    module is imported, i.e. at collection)."""
+    try:
+        return vt_of(int((Path(root) / f"f{nid}.txt").read_text()))
+    except Exception:  # noqa: BLE001
+        return vt_of(0)
